@@ -100,6 +100,9 @@ func (p *videoParams) facts(kind string) videoFacts {
 	case "vp9":
 		return videoFacts{p.vp9W, p.vp9H, 0}
 	case "av1":
+		if p.av1 != nil {
+			return videoFacts{p.av1.w, p.av1.h, 0}
+		}
 		for i, s := range av1SeqHdrs {
 			if string(s) == string(p.seqHdr) {
 				return av1Facts[i]
@@ -128,6 +131,18 @@ func codecStringOK(ts *trackSpec, p *videoParams, got string) (bool, string) {
 		}
 		return true, want
 	case "av1":
+		if p.av1 != nil {
+			// every field as the sequence header declares it; the optional tail may only be left out as a whole and
+			// only when it holds the default values
+			want := p.av1.codecString()
+			if lg == strings.ToLower(want) {
+				return true, want
+			}
+			if short := want[:len("av01.0.00M.00")]; strings.HasSuffix(want, ".0.110.01.01.01.0") && lg == strings.ToLower(short) {
+				return true, want
+			}
+			return false, want
+		}
 		want := "av01.0.08M.08"
 		if !strings.HasPrefix(lg, strings.ToLower(want)) {
 			return false, want
